@@ -57,12 +57,13 @@ CHECKS = {
          NOTE_COMMON + " get_rounding_term on a single digit and count_decimal_digits are replaced by their proven specifications (C18). A numerator equal to one routes to inverse() (C12).",
          "Lean 4 proof (loop invariants + rational error bound) + differential correspondence check", "DESIGN.md §5 C08"),
  "C05": ("Lean model of from_str_radix with the i128 and num-bigint parsers it delegates to (total function on bytes = the no-panic clause) and an independent grammar-shaped "
-         "specification; kernel-checked: radix != 10 rejected, accepted scales lie in the i64 range, concrete accept/reject witnesses for model and grammar. The equality model = grammar "
-         "for ALL strings is established exhaustively for every string up to length 6 (quick) / 7 (thorough) over the 11-character alphabet of the quantifier and on structured long inputs "
-         "(not yet as a Lean theorem: C05_parse_eq_spec is listed as open in DESIGN.md); the real parser is compared with both on the same inputs.",
+         "specification. Kernel-checked for ALL byte strings: C05_parse_eq_spec (model = grammar: accepts exactly sign? digits-with-underscores [. fraction] [e/E sign? digits], first body "
+         "character a digit, and returns exactly the denoted digits and scale; everything else rejected), radix != 10 rejected, accepted scales lie in the i64 range, exponent beyond i128 rejected; "
+         "concrete accept/reject witnesses. The real parser is compared with model and grammar on every string up to length 6 (quick) / 7 (thorough) over the 11-character alphabet of the "
+         "quantifier and on structured long inputs with byte-level mutations.",
          "Trusted: Lean kernel, the byte-level model's tie to the code (differential, exhaustive small scope), str::from_utf8, i128::from_str and num-bigint's parser as modelled (their source was read; "
-         "they are exercised by the same runs). PARTIAL: model=grammar for all lengths is not yet a theorem.",
-         "Lean 4 model + grammar spec, exhaustive small-scope equivalence and differential correspondence; partial proof", "DESIGN.md §5 C05"),
+         "they are exercised by the same runs).",
+         "Lean 4 proof (model = grammar specification for all byte strings) + differential correspondence of the model with the code", "DESIGN.md §5 C05"),
  "C04": ("Character-level Lean model of all renderings (dynamically_format_decimal with its three notations, format_full_scale and zero padding, {:e}/{:E}, dotless exponent form, "
          "FullScaleFormatter, scientific, engineering, pad_integral) compared TEXT-EXACTLY with the real code; every produced text is read back by the grammar specification of C05 and by the real "
          "parser and must give the same value, and the identical (int, scale) outside the exemptions the statement names; Display length bound. Kernel-checked so far: pad_integral without flags "
